@@ -2,8 +2,8 @@
 import ast
 
 from .astutil import unparse, dotted
-from .bitcells import (Unsupported, Param, View, Bits, CU32, ModVal, XorVal, Maybe, TableVal, Opaque, FuncValue, TOP,
-                       PCell, INF, decide_range, cmp_pred, points_pred, mod_pred, origbit_pred)
+from .bitcells import (Unsupported, Param, View, Bits, CU32, ModVal, XorVal, Maybe, TableVal, Opaque, FuncValue, TOP, Record,
+                       PCell, INF, decide_range, cmp_pred, points_pred, mod_pred, origbit_pred, interval_pred, intervals_pred)
 from .bitexpr import CONSTS
 
 FLIP = {ast.Lt: ast.Gt, ast.LtE: ast.GtE, ast.Gt: ast.Lt, ast.GtE: ast.LtE, ast.Eq: ast.Eq, ast.NotEq: ast.NotEq}
@@ -101,6 +101,8 @@ class StmtMixin:
                 return None
             if isinstance(it, dict):
                 it = list(it.keys())
+            if isinstance(it, range) and len(it) <= 4096:
+                it = list(it)
             if not isinstance(it, list) or s.orelse:
                 raise Unsupported('loop over something that is not a folded sequence: {}'.format(unparse(s).split('\n')[0]))
             for n in ast.walk(s):
@@ -133,6 +135,8 @@ class StmtMixin:
         if isinstance(t, (ast.Tuple, ast.List)):
             if any(isinstance(e, ast.Starred) for e in t.elts):
                 raise Unsupported('starred assignment target: {}'.format(unparse(node).split('\n')[0]))
+            if isinstance(v, Record) and v.rtype.is_tuple:
+                v = v.as_list()
             if not isinstance(v, list) or len(v) != len(t.elts):
                 raise Unsupported('unpacking of a value that is not a folded sequence of {} items: {}'.format(
                     len(t.elts), unparse(node).split('\n')[0]))
@@ -421,7 +425,7 @@ class StmtMixin:
                 t = t1 if t2 is None else (t2 if t1 is None else self.join(t1, t2))
                 f = f1 if f2 is None else (f2 if f1 is None else self.join(f1, f2))
                 return t, f, e1 and e2
-        if isinstance(a, CONSTS) and isinstance(b, CONSTS + (list, dict, set, frozenset)):
+        if isinstance(a, CONSTS) and isinstance(b, CONSTS + (list, dict, set, frozenset, range)):
             table = {ast.Lt: lambda: a < b, ast.LtE: lambda: a <= b, ast.Gt: lambda: a > b, ast.GtE: lambda: a >= b,
                      ast.Eq: lambda: a == b, ast.NotEq: lambda: a != b, ast.In: lambda: a in b,
                      ast.NotIn: lambda: a not in b, ast.Is: lambda: a is b, ast.IsNot: lambda: a is not b}
@@ -447,8 +451,35 @@ class StmtMixin:
             return self.split_bits(a, op, b, st, node)
         if not isinstance(a, View):
             raise Unsupported('comparison {}'.format(unparse(node)))
-        if a.shift or a.trunc is not None:
-            raise Unsupported('comparison after shift/truncation: {}'.format(unparse(node)))
+        if a.trunc is not None:
+            return self.split_bits(self.to_bits(a, st, node), op, b, st, node)
+        if isinstance(op, (ast.In, ast.NotIn)) and isinstance(b, range) and not a.shift:
+            pos = isinstance(op, ast.In)
+            if len(b) == 0:
+                return (None, st, True) if pos else (st, None, True)
+            lo, hi, step = (b[0], b[-1], b.step) if b.step > 0 else (b[-1], b[0], -b.step)
+            t, f, _ = self.apply_pred(st, a, interval_pred(lo, hi, True))
+            if step != 1 and t is not None:
+                t, f2, _ = self.apply_pred(t, a, mod_pred(step, lo % step, True))
+                f = f2 if f is None else (f if f2 is None else self.join(f, f2))
+            return (t, f, True) if pos else (f, t, True)
+        if a.shift:
+            # (x >> s) OP b  over integers:  floor division by 2**s is monotone
+            sh = a.shift
+            base = View(a.src, a.ch, a.add, 0, None)
+            if isinstance(op, (ast.In, ast.NotIn)) and isinstance(b, (list, set, frozenset)) and all(
+                    isinstance(x, int) for x in b):
+                ivs = [(x << sh, ((x + 1) << sh) - 1) for x in sorted(set(int(x) for x in b))]
+                return self.apply_pred(st, base, intervals_pred(ivs, isinstance(op, ast.In)))
+            if not (isinstance(b, int) and type(op) in FLIP):
+                raise Unsupported('comparison after shift: {}'.format(unparse(node)))
+            b = int(b)
+            lo, hi = b << sh, ((b + 1) << sh) - 1
+            table = {ast.Lt: (ast.Lt, lo), ast.LtE: (ast.LtE, hi), ast.Gt: (ast.Gt, hi), ast.GtE: (ast.GtE, lo)}
+            if type(op) in table:
+                o2, thr = table[type(op)]
+                return self.apply_pred(st, base, cmp_pred(o2, thr, unparse(node)))
+            return self.apply_pred(st, base, interval_pred(lo, hi, isinstance(op, ast.Eq)))
         if isinstance(op, (ast.In, ast.NotIn)):
             if isinstance(b, (set, frozenset)):
                 b = list(b)
@@ -502,6 +533,27 @@ class StmtMixin:
             dec = decide_range(lo, hi, op, int(b))
             if dec is not None:
                 return (st, None, True) if dec else (None, st, True)
+        if isinstance(op, (ast.In, ast.NotIn)) and isinstance(b, (range, list, set, frozenset)):
+            lo, hi = a.range()
+            dec = None
+            if isinstance(b, range) and len(b) and b.step == 1 and b[0] <= lo and hi <= b[-1]:
+                dec = True
+            elif not isinstance(b, range) and all(isinstance(x, int) for x in b) and all(x < lo or x > hi for x in b):
+                dec = False
+            elif isinstance(b, range) and (len(b) == 0 or max(b[0], b[-1]) < lo or min(b[0], b[-1]) > hi):
+                dec = False
+            if dec is not None:
+                dec = dec == isinstance(op, ast.In)
+                return (st, None, True) if dec else (None, st, True)
+            b = 0       # undecided membership of a bit field: handled like any late guard below
+        k = len(a.bits)
+        if (isinstance(op, (ast.Eq, ast.NotEq)) and isinstance(b, int) and k and isinstance(a.bits[0], tuple) and a.bits[0][0] in st.cells
+                and all(x == (a.bits[0][0], j) for j, x in enumerate(a.bits))):
+            # the low k bits of the original operand compared with a constant: a congruence modulo 2**k
+            if not 0 <= b < (1 << k):
+                res = isinstance(op, ast.NotEq)
+                return (st, None, True) if res else (None, st, True)
+            return self.apply_pred(st, View(a.bits[0][0]), mod_pred(1 << k, int(b), isinstance(op, ast.Eq)), by_orig=True)
         sym = [(i, x) for i, x in enumerate(a.bits) if isinstance(x, tuple)]
         if (isinstance(op, (ast.Eq, ast.NotEq)) and isinstance(b, int) and len(sym) == 1 and sym[0][1][0] in st.cells
                 and all(x == 0 or isinstance(x, tuple) for x in a.bits) and b in (0, 1 << sym[0][0])):
